@@ -1499,8 +1499,10 @@ func (j *Job) labelActive(label string) bool {
 
 func (st *State) assert(c Value, label, kf string, inRegion Value) status {
 	if !st.job.labelActive(label) {
-		// obligations of other properties are not evaluated by this check; the path continues where they hold
-		return st.assume(c)
+		// obligations of other properties are not evaluated by this check - and not assumed either: assuming them
+		// pruned exactly the paths on which a change breaks two properties at once (the other property's
+		// obligation came first in the harness and hid this one's); the path continues whatever their value
+		return stNext
 	}
 	as := st.job.assertStat(label)
 	switch x := c.(type) {
